@@ -36,6 +36,16 @@ def check(ctx):
         (key, _c) = next(iter(sc))[0]
         arms = {c: v for ((k, c),), (v, _d, _p) in sc.items()}
         arr = returns(run(ctx, q, array_mode=True, opaque={PBQ}))
+        if len(arr) > 1:
+            # partitions that differ only in side conditions (an input validation that did not fire) and return the
+            # same buffer are one result
+            from .common import interp as _interp
+
+            _it = _interp(ctx)
+            uniq = {}
+            for p_ in arr:
+                uniq.setdefault(nf.key(_it.to_nf(p_.value)), p_)
+            arr = list(uniq.values())
         if len(arr) != 1 or not isinstance(arr[0].value, Buf):
             raise AnalysisError(f"{q}: array branch does not return one result buffer")
         buf = arr[0].value
@@ -79,11 +89,14 @@ def check(ctx):
     # Spivey: vectorised arm == scalar arm
     q = OIL + "oil_compressibility_undersat_Spivey"
     f = P.func(q)
-    s = returns(run(ctx, q, array_mode=False))
-    a = returns(run(ctx, q, array_mode=True))
-    if len(s) != 1 or len(a) != 1:
-        raise AnalysisError(f"{q}: expected one partition per mode")
-    ctx.identity("C11-b", q + ":array vs scalar", f.where(), "the vectorised branch computes the same term as the scalar branch", ctx_nf(a[0].value), ctx_nf(s[0].value))
+    from .common import each
+
+    s = each(run(ctx, q, array_mode=False), q)
+    a = each(run(ctx, q, array_mode=True), q)
+    if len(s) != 1:
+        raise AnalysisError(f"{q}: the scalar mode has {len(s)} different results")
+    for tg, pa in a:
+        ctx.identity("C11-b", q + ":array vs scalar" + tg, f.where(), "the vectorised branch computes the same term as the scalar branch", ctx_nf(pa.value), ctx_nf(s[0][1].value))
 
     # ---- C11-d inputs are not modified
     n = 0
